@@ -34,5 +34,6 @@ var (
 	ErrTxChainID       = errors.New("the 'chainID' field of transaction is incorrect")
 	ErrBoxTx           = errors.New("the 'expirationTime' field of box transaction must be later than all sub transactions")
 	ErrVerifyBoxTx     = errors.New("box transaction cannot be in another box transaction")
+	ErrNilBoxSubTx     = errors.New("box transaction contains a null sub transaction")
 	ErrToExist         = errors.New("the 'to' field of transaction is incorrect")
 )
